@@ -11,7 +11,7 @@ typedef struct { const char *name; cred_defects df; int depth; int only_tlcp_ser
 static defect_t DEF[] = {
 	{ "honest-depth1", {0}, 1 }, { "honest-depth2", {0}, 2 }, { "honest-depth3", {0}, 3 },
 	{ "untrusted-root", { .untrusted_root = 1 }, 1 }, { "untrusted-root-depth2", { .untrusted_root = 1 }, 2 }, { "expired", { .expired = 1 }, 1 }, { "not-yet-valid", { .notyet = 1 }, 1 }, { "expired-depth2", { .expired = 1 }, 2 },
-	{ "issuer-without-basicConstraints", { .issuer_no_bc = 1 }, 2 }, { "issuer-without-basicConstraints-depth3", { .issuer_no_bc = 1 }, 3 }, { "issuer-cA-FALSE", { .issuer_ca_false = 1 }, 2 }, { "issuer-cA-FALSE-depth3", { .issuer_ca_false = 1 }, 3 },
+	{ "issuer-without-basicConstraints", { .issuer_no_bc = 1 }, 2 }, { "issuer-without-basicConstraints-depth3", { .issuer_no_bc = 1 }, 3 }, { "second-level-issuer-without-basicConstraints", { .issuer2_no_bc = 1 }, 3 }, { "second-level-issuer-cA-FALSE", { .issuer2_ca_false = 1 }, 3 }, { "issuer-cA-FALSE", { .issuer_ca_false = 1 }, 2 }, { "issuer-cA-FALSE-depth3", { .issuer_ca_false = 1 }, 3 },
 	{ "certificate-signature-bitflip", { .sigflip = 1 }, 1 }, { "certificate-signature-bitflip-depth2", { .sigflip = 1 }, 2 }, { "sign-key-does-not-match-certificate", { .wrong_signkey = 1 }, 1 }, { "sign-key-does-not-match-certificate-depth2", { .wrong_signkey = 1 }, 2 },
 	{ "enc-key-does-not-match-enc-certificate", { .wrong_enckey = 1 }, 1, 1 }, { "chain-in-wrong-order", { .wrong_order = 1 }, 2 }, { "chain-in-wrong-order-depth3", { .wrong_order = 1 }, 3 }, { "empty-chain", { .empty_chain = 1 }, 1, 0, 1 },
 };
